@@ -12,6 +12,8 @@ identity after every entry and exit and inside bodies, and every message /
 action created at a probe must be a child of the expected action.
 """
 
+import random
+
 from vkit import progs, world
 from vkit.runner import Result
 from vkit.world import eliot
@@ -128,6 +130,12 @@ def run_case(prog):
         seen = world.capture()
         stack = []  # (action, kind)
         targets = set()
+        tree_ids = set()  # task ids of everything that must be a tree of its own
+
+        def new_tree(uuid, what):
+            if uuid in tree_ids:
+                viol.append(("new-tree-reuses-a-task-id:" + what, {"uuid": uuid}))
+            tree_ids.add(uuid)
 
         def faulty_destination(m):
             if m.get("action_status") in ("succeeded", "failed") and (m["task_uuid"], tuple(m["task_level"][:-1])) in targets:
@@ -171,21 +179,30 @@ def run_case(prog):
 
         def probe():
             n0 = len(seen)
+            if expect() is None:
+                # an application that makes its own random numbers reproducible
+                random.seed(1234)
             log_message("probe")
             m = seen[-1] if len(seen) > n0 else None
             if m is None:
                 viol.append(("probe-message-not-delivered", {}))
                 return
             child_ok(m["task_level"], m["task_uuid"], expect(), "message")
+            if expect() is None:
+                new_tree(m["task_uuid"], "context-free-message")
 
         def new_action0(task=False, fault=0, orphan=False):
             parent = None if orphan else expect()
+            if task or parent is None:
+                random.seed(1234)
             if fault == 2:
                 a = (start_task if task else start_action)(FaultyLogger(), action_type="s")
             else:
                 a = (start_task if task else start_action)(action_type="s")
             if fault == 1:
                 targets.add((a.task_uuid, tuple(world.action_level(a))))
+            if task or parent is None:
+                new_tree(a.task_uuid, "start_task" if task else "top-level-action")
             if task:
                 if world.action_level(a) != [] or any(a.task_uuid == x.task_uuid for x, _ in stack):
                     viol.append(("start_task-not-a-new-tree", {"level": world.action_level(a)}))
